@@ -86,6 +86,17 @@ structure RegionData where
   subs : List Area
 deriving DecidableEq, Repr, Inhabited
 
+/-- `[f(x) for x in xs]` where `f` may raise: the first exception ends the loop -/
+def mapE {α β} (f : α → E β) : List α → E (List β)
+  | [] => .ok []
+  | a :: as =>
+    match f a with
+    | .error e => .error e
+    | .ok b =>
+      match mapE f as with
+      | .error e => .error e
+      | .ok bs => .ok (b :: bs)
+
 /-- `RegionData.crosses_origin`: `start >= end` (a region covering a whole circular record ends
     where it starts) -/
 def RegionData.crossesOrigin (rd : RegionData) : Bool := decide (rd.start ≥ rd.end)
@@ -133,25 +144,33 @@ deriving Repr, Inhabited
 
 /-! ### `_build_record_from_cross_origin`, `_build_base_record` -/
 
-/-- the loop over `record.features` gathering cross-origin features: returns the parent's features
-    after the loop (locations reassigned) and the gathered features, in order -/
-def gatherCrossOrigin (rd : RegionData) (L regionLen : Int) :
-    Nat → List BioFeature → E (List BioFeature × List Working)
-  | _, [] => pure ([], [])
-  | i, f :: rest => do
-    if bridgesOrigin f.loc then
-      let location ← offsetLocation f.loc (-rd.start) L
-      let location := if location.len = L then Loc.simple ⟨0, L, location.strand⟩ else location
-      if location.end > regionLen then
-        let (ps, ws) ← gatherCrossOrigin rd L regionLen (i + 1) rest
-        pure (f :: ps, ws)
-      else
-        let g := { f with loc := location }
-        let (ps, ws) ← gatherCrossOrigin rd L regionLen (i + 1) rest
-        pure (g :: ps, ⟨g, some i⟩ :: ws)
-    else
-      let (ps, ws) ← gatherCrossOrigin rd L regionLen (i + 1) rest
-      pure (f :: ps, ws)
+/-- "features covering all of the record do so from wherever the record starts" -/
+def wholeFix (L : Int) (location : Loc) : Loc :=
+  if location.len = L then Loc.simple ⟨0, L, location.strand⟩ else location
+
+/-- one iteration of the loop over `record.features` gathering cross-origin features: the parent's
+    feature afterwards (location reassigned or not) and the gathered feature, if any -/
+def crossStep (rd : RegionData) (L regionLen : Int) (f : BioFeature) : E (BioFeature × Option BioFeature) :=
+  if bridgesOrigin f.loc then
+    match offsetLocation f.loc (-rd.start) L with
+    | .error e => .error e
+    | .ok location =>
+      if (wholeFix L location).end > regionLen then .ok (f, none)
+      else .ok ({ f with loc := wholeFix L location }, some { f with loc := wholeFix L location })
+  else .ok (f, none)
+
+/-- the gathered features in order, each remembering which parent feature it is -/
+def collectCross : Nat → List (BioFeature × Option BioFeature) → List Working
+  | _, [] => []
+  | i, (_, none) :: rest => collectCross (i + 1) rest
+  | i, (_, some g) :: rest => ⟨g, some i⟩ :: collectCross (i + 1) rest
+
+/-- the whole loop: the parent's features afterwards and the gathered features -/
+def gatherCrossOrigin (rd : RegionData) (L regionLen : Int) (fs : List BioFeature) :
+    E (List BioFeature × List Working) :=
+  match mapE (crossStep rd L regionLen) fs with
+  | .error e => .error e
+  | .ok steps => .ok (steps.map (·.1), collectCross 0 steps)
 
 /-- `_build_record_from_cross_origin`: (sequence, features of the region record, parent features afterwards) -/
 def buildRecordFromCrossOrigin (rd : RegionData) (rec : BioRecord) :
@@ -162,10 +181,10 @@ def buildRecordFromCrossOrigin (rd : RegionData) (rec : BioRecord) :
   let post0 := sliceFeatures rec.features 0 rd.end
   let seq := sliceSeq rec.seq rd.start L ++ sliceSeq rec.seq 0 rd.end
   let regionLen : Int := seq.length
-  let post ← post0.mapM fun f => do
-    let l ← offsetLocation f.loc (L - rd.start) L
-    pure { f with loc := l }
-  let (parent, cross) ← gatherCrossOrigin rd L regionLen 0 rec.features
+  let post ← mapE (fun f => match offsetLocation f.loc (L - rd.start) L with
+    | .error e => .error e
+    | .ok l => .ok { f with loc := l }) post0
+  let (parent, cross) ← gatherCrossOrigin rd L regionLen rec.features
   pure (seq, pre.map (⟨·, none⟩) ++ cross ++ post.map (⟨·, none⟩), parent)
 
 /-- `_build_base_record` -/
@@ -276,8 +295,8 @@ def renumbering (rd : RegionData) (L : Int) : Renumbering :=
 /-- the body of the loop of `_adjust_features` for one feature -/
 def adjustFeature (rd : RegionData) (L : Int) (rn : Renumbering) (f : BioFeature) : E BioFeature :=
   if f.type == "region" then do
-    let cands ← if f.q.candNumbers.isEmpty then pure f.q.candNumbers else f.q.candNumbers.mapM (dictGet rn.cands)
-    let subs ← if f.q.subNumbers.isEmpty then pure f.q.subNumbers else f.q.subNumbers.mapM (dictGet rn.subs)
+    let cands ← if f.q.candNumbers.isEmpty then pure f.q.candNumbers else mapE (dictGet rn.cands) f.q.candNumbers
+    let subs ← if f.q.subNumbers.isEmpty then pure f.q.subNumbers else mapE (dictGet rn.subs) f.q.subNumbers
     pure { f with q := { f.q with candNumbers := cands, subNumbers := subs } }
   else if f.type == "cand_cluster" then do
     match f.q.candNumber with
@@ -287,7 +306,7 @@ def adjustFeature (rd : RegionData) (L : Int) (rn : Renumbering) (f : BioFeature
       match f.q.protoNumbers with
       | none => throw "KeyError"
       | some ps =>
-        let newPs ← ps.mapM (dictGet rn.protos)
+        let newPs ← mapE (dictGet rn.protos) ps
         pure { f with q := { f.q with candNumber := some new, protoNumbers := some newPs } }
   else if f.type == "protocluster" || f.type == "proto_core" then do
     match f.q.protoNumber with
@@ -309,16 +328,24 @@ def adjustFeature (rd : RegionData) (L : Int) (rn : Renumbering) (f : BioFeature
 /-- `_adjust_features` -/
 def adjustFeatures (rd : RegionData) (L : Int) (ws : List Working) : E (List Working) :=
   let rn := renumbering rd L
-  ws.mapM fun w => do pure { w with f := (← adjustFeature rd L rn w.f) }
+  mapE (fun w => match adjustFeature rd L rn w.f with
+    | .error e => .error e
+    | .ok g => .ok { w with f := g }) ws
 
 /-! ### `write_to_genbank` -/
 
-/-- changes made to aliased features are changes to the parent's features -/
+def modifyAt (l : List BioFeature) (i : Nat) (g : BioFeature → BioFeature) : List BioFeature :=
+  match l, i with
+  | [], _ => []
+  | x :: xs, 0 => g x :: xs
+  | x :: xs, i + 1 => x :: modifyAt xs i g
+
+/-- changes made to aliased features (location, qualifiers) are changes to the parent's features -/
 def applyAliases (parent : List BioFeature) : List Working → List BioFeature
   | [] => parent
   | w :: ws =>
     match w.alias with
-    | some i => applyAliases (parent.set i w.f) ws
+    | some i => applyAliases (modifyAt parent i fun f => { f with loc := w.f.loc, q := w.f.q, tag := w.f.tag }) ws
     | none => applyAliases parent ws
 
 /-- the restore loop: `feature.location = original_locations[id(feature)]`,
